@@ -1,7 +1,7 @@
 use std::{any::TypeId, collections::VecDeque};
 
 use bevy::{
-    ecs::component::ComponentId,
+    ecs::component::{ComponentId, Tick},
     pbr::OpaqueRendererMethod,
     prelude::*,
     reflect::{DynamicTypePath, FromReflect, GetTypeRegistration, Reflect, ReflectFromReflect},
@@ -38,7 +38,7 @@ pub(crate) struct SyncTrackerRes {
     pub(crate) changed_components_to_send: VecDeque<ComponentChange>,
     /// Pushed references (component and handle) that came from network and were applied in world,
     /// so that in the next detect step they will be skipped and avoid ensless loop.
-    pub(crate) pushed_component_from_network: HashSet<ComponentChangeId>,
+    pub(crate) pushed_component_from_network: HashMap<ComponentChangeId, Tick>,
     pub(crate) pushed_handles_from_network: HashMap<AssId, usize>,
     /// Parent links (child uuid -> parent uuid) applied from the network and not yet seen by the
     /// parent tracking systems, so that they are not announced again.
@@ -64,16 +64,23 @@ pub(crate) fn sync_audio_enabled(tracker: Res<SyncTrackerRes>) -> bool {
 }
 
 impl SyncTrackerRes {
-    pub(crate) fn signal_component_changed(&mut self, id: Uuid, data: Box<dyn Reflect>) {
+    pub(crate) fn signal_component_changed(
+        &mut self,
+        id: Uuid,
+        data: Box<dyn Reflect>,
+        last_changed: Tick,
+    ) {
         let name = data.get_represented_type_info().unwrap().type_path().into();
         let change_id = ComponentChangeId { id, name };
-        if self.pushed_component_from_network.contains(&change_id) {
-            debug!(
-                "Debouncing changed component, was already pushed. {:?},{:?}",
-                change_id.id, change_id.name
-            );
-            self.pushed_component_from_network.remove(&change_id);
-            return;
+        if let Some(applied_at) = self.pushed_component_from_network.remove(&change_id) {
+            // only the change made by the network apply itself is debounced, a later local write is sent
+            if applied_at == last_changed {
+                debug!(
+                    "Debouncing changed component, was already pushed. {:?},{:?}",
+                    change_id.id, change_id.name
+                );
+                return;
+            }
         }
         self.changed_components_to_send
             .push_back(ComponentChange { change_id, data });
@@ -153,12 +160,19 @@ impl SyncTrackerRes {
             name: announced_name,
         };
         if is_value_different(previous_value, &*component_data) {
-            world
-                .resource_mut::<SyncTrackerRes>()
-                .pushed_component_from_network
-                .insert(change_id);
             let entity = &mut world.entity_mut(e_id);
             reflect_component.insert(entity, component_data.as_reflect(), &registry);
+            let applied_at = world
+                .components()
+                .get_id(registration.type_id())
+                .and_then(|c_id| world.entity(e_id).get_change_ticks_by_id(c_id))
+                .map(|ticks| ticks.last_changed_tick());
+            if let Some(applied_at) = applied_at {
+                world
+                    .resource_mut::<SyncTrackerRes>()
+                    .pushed_component_from_network
+                    .insert(change_id, applied_at);
+            }
             debug!(
                 "Applied component from network: {}v{} - {}",
                 e_id.index(),
@@ -308,7 +322,7 @@ fn sync_skinned_mesh(
     assets: Res<Assets<SkinnedMeshInverseBindposes>>,
     mut tracker: ResMut<SyncTrackerRes>,
     q: Query<
-        (&SyncEntity, &SkinnedMesh),
+        (&SyncEntity, Ref<SkinnedMesh>),
         (
             With<SyncEntity>,
             Without<SyncExclude<SkinnedMesh>>,
@@ -317,8 +331,12 @@ fn sync_skinned_mesh(
     >,
 ) {
     for (sup, component) in q.iter() {
-        let component_to_send = tracker.to_skinned_mapper(&assets, component);
-        tracker.signal_component_changed(sup.uuid, component_to_send.clone_value());
+        let component_to_send = tracker.to_skinned_mapper(&assets, &component);
+        tracker.signal_component_changed(
+            sup.uuid,
+            component_to_send.clone_value(),
+            component.last_changed(),
+        );
     }
 }
 
@@ -326,7 +344,7 @@ fn sync_skinned_mesh(
 fn sync_detect<T: Component + Reflect>(
     mut push: ResMut<SyncTrackerRes>,
     q: Query<
-        (&SyncEntity, &T),
+        (&SyncEntity, Ref<T>),
         (
             With<SyncEntity>,
             Without<SyncExclude<T>>,
@@ -335,7 +353,7 @@ fn sync_detect<T: Component + Reflect>(
     >,
 ) {
     for (sup, component) in q.iter() {
-        push.signal_component_changed(sup.uuid, component.clone_value());
+        push.signal_component_changed(sup.uuid, component.clone_value(), component.last_changed());
     }
 }
 
